@@ -72,7 +72,7 @@ let run_crc infile outfile =
 
 (* ---------------------------------------------------------------- wal mode *)
 
-type walinfo = { segsize : int; meta : byte list option; mutable ops : wop list (* reversed *) }
+type walinfo = { segsize : int; meta : byte list option; mutable ops : sop list (* reversed *) }
 type dirinfo = { dwid : string; nops : int; mutable files : ((n * n) * byte list) list (* reversed *) }
 
 let dir_digest (files : ((n * n) * byte list) list) : string =
@@ -153,13 +153,16 @@ let run_wal infile outfile oraclefile =
       Hashtbl.replace wals wid { segsize = int_of_string segsize; meta = opt_of_token meta; ops = [] }
     | "OPSAVE" :: wid :: term :: vote :: commit :: _nents :: ents ->
       let w = Hashtbl.find wals wid in
-      w.ops <- OpSave ({ hs_term = n_of_hexnum term; hs_vote = n_of_hexnum vote; hs_commit = n_of_hexnum commit },
-                       parse_ents ents) :: w.ops
+      w.ops <- SOp (OpSave ({ hs_term = n_of_hexnum term; hs_vote = n_of_hexnum vote; hs_commit = n_of_hexnum commit },
+                       parse_ents ents)) :: w.ops
     | ["OPSNAP"; wid; index; term; conf] ->
       let w = Hashtbl.find wals wid in
-      w.ops <- OpSnap { ws_index = n_of_hexnum index; ws_term = n_of_hexnum term; ws_conf = opt_of_token conf } :: w.ops
+      w.ops <- SOp (OpSnap { ws_index = n_of_hexnum index; ws_term = n_of_hexnum term; ws_conf = opt_of_token conf }) :: w.ops
     | ["OPCUT"; wid] ->
-      let w = Hashtbl.find wals wid in w.ops <- OpCut :: w.ops
+      let w = Hashtbl.find wals wid in w.ops <- SOp OpCut :: w.ops
+    | ["OPREOPEN"; wid; si; st] ->
+      (* Close; Open(snapshot si/st); ReadAll: a new session on the same directory *)
+      let w = Hashtbl.find wals wid in w.ops <- SReopen (n_of_hexnum si, n_of_hexnum st) :: w.ops
     | ["DIR"; did; wid; nops; _nfiles] ->
       Hashtbl.replace dirs did { dwid = wid; nops = int_of_string nops; files = [] }
     | ["F"; did; sq; ix; h] ->
@@ -171,7 +174,7 @@ let run_wal infile outfile oraclefile =
         (* the writer model, run on the first nops operations, must produce this directory *)
         let w = Hashtbl.find wals d.dwid in
         let ops = take d.nops (List.rev w.ops) in
-        let ws = w_run w.meta ops in
+        let (ws, _) = s_run_d (n_of_int w.segsize) w.meta ops in
         let mf = w_files (n_of_int w.segsize) ws in
         Printf.fprintf oc "D %s %s\n" did (dir_digest mf)
       end
@@ -187,12 +190,18 @@ let run_wal infile outfile oraclefile =
       let spec =
         if d.nops >= 0 && sihex = "0" && sthex = "0" then begin
           let w = Hashtbl.find wals d.dwid in
-          if spec_read_ok w.meta (take d.nops (List.rev w.ops)) r then "ok" else "BAD"
+          if spec_read_ok w.meta (sops_wops (take d.nops (List.rev w.ops))) r then "ok" else "BAD"
         end else "na" in
-      Printf.fprintf oo "O %s kind=READ oracle=%s oracle2=%s nrec=%d spec=%s\n" cid
+      (* a read from a recorded snapshot: exactly the specified entries above its index *)
+      let specat =
+        if d.nops >= 0 && sihex <> "0" && is_ok_nil r then begin
+          let w = Hashtbl.find wals d.dwid in
+          if spec_read_at_ok (sops_wops (take d.nops (List.rev w.ops))) si r then "ok" else "BAD"
+        end else "na" in
+      Printf.fprintf oo "O %s kind=READ oracle=%s oracle2=%s nrec=%d spec=%s specat=%s\n" cid
         (oracle_of si st written (List.length written) r)
         (match r2 with Some x -> oracle_of si st written 0 x | None -> "na")
-        (List.length written) spec
+        (List.length written) spec specat
     | ["K"; cid; did; sihex; sthex; nops] ->
       (* process-kill image taken when the nops-th operation returned: read it like any
          directory; the result must contain every completed save (completed_ok, theorem
@@ -204,9 +213,9 @@ let run_wal infile outfile oraclefile =
       let d = Hashtbl.find dirs did in
       let w = Hashtbl.find wals d.dwid in
       let ops = take (int_of_string nops) (List.rev w.ops) in
-      let (_, dur) = w_run_d w.meta ops in
+      let (_, dur) = s_run_d (n_of_int w.segsize) w.meta ops in
       Printf.fprintf oo "O %s kind=K durable=%s prefix=%s nops=%s\n" cid
-        (if completed_ok ops r then "ok" else "BAD")
+        (if completed_ok (sops_wops ops) r then "ok" else "BAD")
         (if kill_prefix_ok dur files then "ok" else "BAD") nops
     | ["M"; cid; did; sihex; sthex; fidx; off; v] ->
       let si = n_of_hexnum sihex and st = n_of_hexnum sthex in
